@@ -495,6 +495,7 @@ LOCAL_PLAN = {
     'C07': [('build', False), ('build', True), ('service', False), ('service', True)],
     'C08': [('build', False), ('service', False)],
     'C11': [('service', False), ('service', True), ('aggregate', False), ('build', False)],
+    'C10': [('service', False), ('service', True), ('build', False), ('build', True)],
     'C20': [('aggregate', False), ('aggregate', True)],
 }
 LOCAL_MONITORS = {
@@ -503,7 +504,8 @@ LOCAL_MONITORS = {
     'C06': ['late_unanswered', 'bad_decide', 'ok_without_cause'],
     'C07': ['ok_on_fail', 'ok_without_cause'],
     'C08': ['twice'],
-    'C11': ['double_proc', 'wrong_actual'],
+    'C11': ['double_proc', 'wrong_actual', 'proc_left_at_exit'],
+    'C10': ['proc_left_at_exit', 'double_proc'],
     'C20': ['ok_without_cause', 'late_unanswered', 'misdirected_ok', 'wrong_actual'],
 }
 
